@@ -19,7 +19,7 @@ PROP = dict(
                  "get<T>(advance, size) / pget<T>(offset, size) are called with size >= sizeof(T) only",
                  "destination buffers handed to read/pread(void*) hold exactly the in-range prefix, those handed to readx/preadx(void*) and the source handed to pwrite/write/skip_if hold min(size, n+1) bytes when the request is out of range (a correct implementation validates before copying)",
                  "truncate() below the cursor counts, like go(), as an explicit way of placing the cursor beyond the end"],
-    min_evaluations_quick=200000,
+    min_evaluations_quick=900000, min_evaluations_thorough=3000000,
     technique=("property-based testing: exhaustive boundary grid + rapidcheck cursor histories against a 128-bit-arithmetic slice model, "
                "on exactly-sized heap blocks under AddressSanitizer / UBSan(pointer-overflow, bounds)"),
     level_text=("Exploration: every case calls the real accessors (ASan+UBSan build of the working tree) and compares returned bytes, "
